@@ -143,12 +143,14 @@ theorem ctor2_fill (b : Bytes) (hb : NulFree b) :
   have : ({ r0 with buf := b2, len := b.length } : Rep) = { r0 with buf := b2 } := by rw [← hl]
   rw [← this]; exact hM
 
-theorem repeatChar_spec (c : UInt8) (hc : c ≠ 0) (n : Nat) :
-    ∃ r, repeatChar c n = some r ∧ Models r (List.replicate n c) := by
+/-- `String::repeat(c, n)` for every `int n`: a negative count gives the empty string -/
+theorem repeatChar_spec (c : UInt8) (hc : c ≠ 0) (n0 : Int) :
+    ∃ r, repeatChar c n0 = some r ∧ Models r (List.replicate (if n0 < 0 then 0 else n0.toNat) c) := by
+  simp only [repeatChar]
+  generalize (if n0 < 0 then 0 else n0.toNat) = n
   obtain ⟨r0, b1, b2, h0, h1, h2, hM⟩ := ctor2_fill (List.replicate n c) (NulFree.replicate c hc n)
   simp only [List.length_replicate] at h0 h2
   refine ⟨_, ?_, hM⟩
-  unfold repeatChar
   simp only [h0, Option.bind_some, h1, h2, Option.map_some]
 
 /-! ### `substring`, `substr`, `concat`, `clear`, `trim` -/
@@ -168,10 +170,11 @@ theorem substring_spec {r : Rep} {s : Bytes} (hm : Models r s) (i j : Nat) (hij 
   unfold Rep.substring
   simp only [hij, if_true, h0, Option.bind_some, hrd, h1, h2, Option.map_some]
 
-theorem substr_spec {r : Rep} {s : Bytes} (hm : Models r s) (i : Int) (n : Nat) (hi : -(s.length : Int) ≤ i) :
+theorem substr_spec {r : Rep} {s : Bytes} (hm : Models r s) (i n : Int) (hlen : (s.length : Int) < 2147483648)
+    (hi : -(s.length : Int) ≤ i) (hi2 : i < 2147483648) (hn : 0 ≤ n) (hn2 : n < 2147483648) :
     ∃ r', r.substr i n = some r' ∧
-      Models r' ((s.drop (if i < 0 then i + s.length else i).toNat).take n) := by
-  obtain ⟨a, b, hidx, hab, hb, hsub⟩ := substrIdx_spec s i n hi
+      Models r' ((s.drop (if i < 0 then i + s.length else i).toNat).take n.toNat) := by
+  obtain ⟨a, b, hidx, hab, hb, hsub⟩ := substrIdx_spec s i n hlen hi hi2 hn hn2
   obtain ⟨r', hr, hM⟩ := substring_spec hm a b hab hb
   refine ⟨r', ?_, by rw [← hsub]; exact hM⟩
   unfold Rep.substr
@@ -228,6 +231,47 @@ theorem trimmed_spec {r : Rep} {s : Bytes} (hm : Models r s) : ∃ r', r.trimmed
   rw [hm.toList, hm.2.1]
   exact substring_spec hm _ _ (trimEnd_ge s (trimStart s) s.length (trimStart_le s)) (trimEnd_le s (trimStart s) s.length)
 
+
+/-! ### comparison operators -/
+
+theorem eq_iff {r r' : Rep} {s t : Bytes} (h : Models r s) (h' : Models r' t) : r.eq r' = true ↔ s = t := by
+  unfold Rep.eq
+  have e1 : r.buf.take r.len = s := h.toList
+  by_cases hl : s.length = t.length
+  · have e2 : r'.buf.take r.len = t := by rw [h.2.1, hl, ← h'.2.1]; exact h'.toList
+    have : ¬ ((r.len != r'.len) = true) := by simp [h.2.1, h'.2.1, hl]
+    simp [this, e1, e2]
+  · have : (r.len != r'.len) = true := by simp [h.2.1, h'.2.1, hl]
+    simp only [this, if_true]
+    constructor
+    · intro e; cases e
+    · intro e; subst e; exact absurd rfl hl
+
+theorem ne_eq_not_eq (r r' : Rep) : r.ne r' = !r.eq r' := by
+  unfold Rep.ne Rep.eq
+  split <;> simp [bne]
+
+theorem strcmp_lt_iff (a b : Bytes) : strcmp a b < 0 ↔ a < b := by
+  rcases strcmp_spec a b with ⟨h, hl⟩ | ⟨h, he⟩ | ⟨h, hg⟩
+  · rw [h]; exact ⟨fun _ => hl, fun _ => by decide⟩
+  · rw [h, he]; exact ⟨fun hh => absurd hh (by decide), fun hh => absurd hh (List.lt_irrefl b)⟩
+  · rw [h]; exact ⟨fun hh => absurd hh (by decide), fun hh => absurd hg (List.lt_asymm hh)⟩
+
+theorem strcmp_eq_iff (a b : Bytes) : strcmp a b = 0 ↔ a = b := by
+  rcases strcmp_spec a b with ⟨h, hl⟩ | ⟨h, he⟩ | ⟨h, hg⟩
+  · rw [h]; exact ⟨fun hh => absurd hh (by decide), fun e => by subst e; exact absurd hl (List.lt_irrefl a)⟩
+  · rw [h]; exact ⟨fun _ => he, fun _ => rfl⟩
+  · rw [h]; exact ⟨fun hh => absurd hh (by decide), fun e => by subst e; exact absurd hg (List.lt_irrefl a)⟩
+
+theorem lt_iff {r r' : Rep} {s t : Bytes} (h : Models r s) (h' : Models r' t) : r.lt r' = true ↔ s < t := by
+  unfold Rep.lt Rep.compare
+  rw [h.view, h'.view, decide_eq_true_eq]
+  exact strcmp_lt_iff s t
+
+theorem eqCStr_iff {r : Rep} {s : Bytes} (h : Models r s) (t : Bytes) : r.eqCStr t = true ↔ s = t := by
+  unfold Rep.eqCStr
+  rw [h.view, beq_iff_eq]
+  exact strcmp_eq_iff s t
 
 /-! ### `split`, `join`, `replace` on the representation -/
 
